@@ -84,4 +84,40 @@ def translate(repo):
                 if rel != SRC and ("_send_queue" in txt or "_sendlock" in txt):
                     outside.append(rel)
     items.append(typed("send_state_untouched_elsewhere", "bool", coq_bool(not outside)))
+    # every place in the package that can put bytes on a connection's channel: `<anything>._channel` may be mentioned outside
+    # Connection._send only to test / close / poll / recv / read its fileno - never to send, and never to be aliased or handed on
+    ALLOWED = {"closed", "close", "poll", "recv", "fileno"}
+    bad = []
+    for root, _, files in _os.walk(_os.path.join(repo, "rpyc")):
+        for fn2 in files:
+            if not fn2.endswith(".py"):
+                continue
+            path = _os.path.join(root, fn2)
+            rel = _os.path.relpath(path, repo)
+            try:
+                t2 = ast.parse(open(path).read())
+            except SyntaxError:
+                continue
+            parents = {}
+            for n in ast.walk(t2):
+                for c in ast.iter_child_nodes(n):
+                    parents[c] = n
+            for n in ast.walk(t2):
+                if isinstance(n, ast.Attribute) and n.attr == "_channel":
+                    par = parents.get(n)
+                    fnode = par
+                    while fnode is not None and not isinstance(fnode, (ast.FunctionDef, ast.AsyncFunctionDef)):
+                        fnode = parents.get(fnode)
+                    where = "%s:%s" % (rel, fnode.name if fnode is not None else "<module>")
+                    if isinstance(par, ast.Attribute) and par.value is n:
+                        if par.attr in ALLOWED or (par.attr == "send" and rel == SRC and fnode is not None and fnode.name == "_send"):
+                            continue
+                        bad.append(where + ":." + par.attr)
+                    elif isinstance(par, ast.Assign) and n in par.targets:
+                        if not (rel == SRC and fnode is not None and fnode.name == "__init__"):
+                            bad.append(where + ":assigned")
+                    else:
+                        bad.append(where + ":aliased-or-passed")
+    items.append(typed("channel_written_only_by_send", "bool", coq_bool(not bad)))
+    items.append(shape("channel_uses_outside_the_allowed_ones", "\n".join(sorted(bad))))
     return items
